@@ -121,6 +121,7 @@ InitNode ==
     vr |-> 0,                                         \* vote rounds started so far
     hbr |-> 0,                                        \* heartbeatRound: replication rounds started so far
     cnt |-> <<>>,                                     \* round key <<kind, k>> -> responses counted (1 = the node itself)
+    rsp |-> <<>>,                                     \* (history) replication round k -> voters whose responses were counted
     reads |-> {},                                     \* pending linearizable reads [id, ridx, vround, ver, must]
     svq |-> TRUE,                                     \* shouldVerifyQuorum
     rvr |-> 0 ]                                       \* round started by the last read that started one
@@ -194,7 +195,8 @@ OnRVReply(s, n, m, r, stay) ==
   IF s.term > m.term /\ "NoStaleVoteReplyCheck" \notin W THEN s
   ELSE
     LET s1 == IF r.ok THEN [s EXCEPT !.votes = s.votes + 1] ELSE s IN
-    IF r.term > m.term THEN BecomeFollower(s1, r.term, "rvr")
+    \* (weakening PrevoteReplyTermIgnored: a pre-candidate does not adopt the term of a rejection)
+    IF r.term > m.term /\ ~("PrevoteReplyTermIgnored" \in W /\ m.pre) THEN BecomeFollower(s1, r.term, "rvr")
     ELSE
       LET s2 == IF Quorum(s1, s1.votes) /\ s1.role = "P"
                   THEN (IF stay THEN [s1 EXCEPT !.role = "C"] ELSE BecomeCandidate(s1, n))
@@ -420,6 +422,11 @@ Observe(n, old, new, el, c, vd, ak, v) ==
               \* C05: a linearizable read is served from a state that lacks an operation acknowledged
               \* before the read was invoked
               \cup (IF \E r \in Servable(new) : new.commit < r.must THEN {"StaleRead"} ELSE {})
+              \* a read is served although no round from its own on was answered by voters that
+              \* form a majority together with the leader (the mechanism behind C05; see Monitors.tla)
+              \cup (IF "ae" \in AsyncKinds /\ "ReadNoQuorum" \notin W /\ \E r \in Servable(new) :
+                        ~\E k \in DOMAIN new.rsp : k >= r.vround /\ Quorum(new, 1 + Cardinality(new.rsp[k]))
+                    THEN {"ReadWithoutMajority"} ELSE {})
   IN [el |-> el2, c |-> CommNext(c, old, new), vd |-> vd2, ak |-> ak2, v |-> v2]
 
 \* apply the observation of one or two changed nodes to the history variables
@@ -439,7 +446,22 @@ Spend(what) == budget[what] > 0 /\ budget' = [budget EXCEPT ![what] = budget[wha
 
 Up(n) == ns[n].role # "D"
 
-\* election(): the whole critical section run by the election loop when the timer fires
+\* election(): the whole critical section run by the election loop when the timer fires, as a
+\* function of the node's state (used by the action below and by Heal.tla's recovery strategy)
+FireNode(s, n) ==
+  LET \* a candidate may hold the election its prevote permitted (role C reached with `stay':
+      \* the prevote round is still the current round, pre = TRUE); a candidate whose
+      \* election timed out goes back to the prevote (fix for S13; the weakening restores
+      \* the former behaviour: term incremented again without a prevote)
+      s1 == IF s.role = "C" /\ (s.pre \/ "CandidateNoPrevote" \in W) THEN BecomeCandidate(s, n)
+            ELSE [s EXCEPT !.role = "P", !.votes = 1, !.asked = {}, !.pre = TRUE]
+      \* only voter: nobody to ask, leader at once -- through becomeCandidate (new term, own
+      \* vote) since fix bc71823; the weakening restores the old shortcut
+      s2 == IF ~SingleServer(s1, n) THEN s1
+            ELSE IF s1.role = "P" /\ "SingleVoterNoTerm" \notin W THEN BecomeLeader(BecomeCandidate(s1, n), n)
+            ELSE BecomeLeader([s1 EXCEPT !.pre = FALSE], n) IN
+  IF s2.role = "L" /\ SingleServer(s2, n) THEN [s2 EXCEPT !.commit = CommitIndexOf(s2, n)] ELSE s2
+
 TimerFire(n) ==
   LET s == ns[n] IN
   /\ "rv" \notin AsyncKinds /\ n \in MayTimeout
@@ -447,21 +469,23 @@ TimerFire(n) ==
   /\ IsVoter(s, n) \/ "NonVoterCampaigns" \in W
   /\ s.term < MaxTerm
   /\ Spend("timer")
-  /\ LET \* a candidate may hold the election its prevote permitted (role C reached with `stay':
-         \* the prevote round is still the current round, pre = TRUE); a candidate whose
-         \* election timed out goes back to the prevote (fix for S13; the weakening restores
-         \* the former behaviour: term incremented again without a prevote)
-         s1 == IF s.role = "C" /\ (s.pre \/ "CandidateNoPrevote" \in W) THEN BecomeCandidate(s, n)
-               ELSE [s EXCEPT !.role = "P", !.votes = 1, !.asked = {}, !.pre = TRUE]
-         \* only voter: nobody to ask, leader at once -- through becomeCandidate (new term, own
-         \* vote) since fix bc71823; the weakening restores the old shortcut
-         s2 == IF ~SingleServer(s1, n) THEN s1
-               ELSE IF s1.role = "P" /\ "SingleVoterNoTerm" \notin W THEN BecomeLeader(BecomeCandidate(s1, n), n)
-               ELSE BecomeLeader([s1 EXCEPT !.pre = FALSE], n)
-         s3 == IF s2.role = "L" /\ SingleServer(s2, n) THEN [s2 EXCEPT !.commit = CommitIndexOf(s2, n)] ELSE s2 IN
+  /\ LET s3 == FireNode(s, n) IN
      /\ ns' = [ns EXCEPT ![n] = Fin(s, s3)]
      /\ Hist1(n, s3)
   /\ UNCHANGED net
+
+\* one RequestVote RPC between candidate state s (node n) and voter state sp, and one
+\* AppendEntries RPC between leader state s and follower state sp, as functions
+RVPair(s, sp, n, p, sticky, stay) ==
+  LET m == RVRequest(s, n)
+      h == HandleRV(sp, m, sticky)
+      c == OnRVReply([s EXCEPT !.asked = s.asked \cup {p}], n, m, h.reply, stay)
+      c2 == IF c.role = "L" /\ SingleServer(c, n) THEN [c EXCEPT !.commit = CommitIndexOf(c, n)] ELSE c IN
+  [c |-> c2, h |-> h.s]
+AEPair(s, sp, n, p) ==
+  LET m == AERequest(s, n, p)
+      h == HandleAE(sp, m) IN
+  [c |-> OnAEReply(s, n, p, m, h.reply), h |-> h.s]
 
 \* one RequestVote RPC, synchronously: n asks p
 RVExchange(n, p) ==
@@ -473,12 +497,9 @@ RVExchange(n, p) ==
   /\ p \in VotersOf(s) /\ p \notin s.asked /\ IsVoter(s, n)
   /\ \E sticky \in IF ns[p].term > RVRequest(s, n).term /\ ~Gen THEN BOOLEAN ELSE {FALSE} :
      \E stay \in IF s.vote \notin {Nil, n} /\ ~Gen THEN BOOLEAN ELSE {FALSE} :
-       LET m == RVRequest(s, n)
-           h == HandleRV(ns[p], m, sticky)
-           c == OnRVReply([s EXCEPT !.asked = s.asked \cup {p}], n, m, h.reply, stay)
-           c2 == IF c.role = "L" /\ SingleServer(c, n) THEN [c EXCEPT !.commit = CommitIndexOf(c, n)] ELSE c IN
-       /\ ns' = [ns EXCEPT ![p] = Fin(ns[p], h.s), ![n] = Fin(s, c2)]
-       /\ Hist2(n, c2, p, h.s)
+       LET r == RVPair(s, ns[p], n, p, sticky, stay) IN
+       /\ ns' = [ns EXCEPT ![p] = Fin(ns[p], r.h), ![n] = Fin(s, r.c)]
+       /\ Hist2(n, r.c, p, r.h)
   /\ UNCHANGED <<net, budget>>
 
 \* the request is handled but the reply is lost
@@ -504,11 +525,9 @@ AEExchange(n, p) ==
   /\ s.role = "L" /\ p \in MembersOf(s)
   /\ s.next[p] > s.li.idx              \* otherwise a snapshot is sent (ISExchange)
   /\ Spend("ae")
-  /\ LET m == AERequest(s, n, p)
-         h == HandleAE(ns[p], m)
-         c == OnAEReply(s, n, p, m, h.reply) IN
-     /\ ns' = [ns EXCEPT ![p] = Fin(ns[p], h.s), ![n] = Fin(s, c)]
-     /\ Hist2(n, c, p, h.s)
+  /\ LET r == AEPair(s, ns[p], n, p) IN
+     /\ ns' = [ns EXCEPT ![p] = Fin(ns[p], r.h), ![n] = Fin(s, r.c)]
+     /\ Hist2(n, r.c, p, r.h)
   /\ UNCHANGED net
 
 AEHalf(n, p) ==
@@ -745,13 +764,16 @@ AEReply(m) ==
          key == <<"h", m.round>>
          counts == live /\ m.reply.term <= s.term /\ (IsVoter(s, p) \/ "HBCountsNonVoters" \in W)
          c1 == Get(s.cnt, key, IF IsVoter(s, n) THEN 1 ELSE 0) + 1
-         s1 == IF counts THEN (IF Quorum(s, c1) THEN MarkVerified([s EXCEPT !.cnt = PutF(s.cnt, key, c1)], m.round)
-                               ELSE [s EXCEPT !.cnt = PutF(s.cnt, key, c1)])
-               ELSE s
-         c == OnAEReply(s1, n, p, m.req, m.reply) IN
+         s0 == IF counts THEN [s EXCEPT !.cnt = PutF(s.cnt, key, c1), !.rsp = PutF(s.rsp, m.round, Get(s.rsp, m.round, {}) \cup {p})] ELSE s
+         s1 == IF counts /\ Quorum(s, c1) THEN MarkVerified(s0, m.round) ELSE s0
+         c == OnAEReply(s1, n, p, m.req, m.reply)
+         \* weakening RejectRetriesInRound: a rejected request is retried at once - with the
+         \* round's response counter, so that one follower is counted twice
+         retry == IF "RejectRetriesInRound" \in W /\ live /\ ~m.reply.ok /\ m.reply.term <= s.term /\ c.role = "L" /\ c.next[p] > c.li.idx
+                    THEN {[AERequest(c, n, p) EXCEPT !.kind = "aeq"] @@ [to |-> p, round |-> m.round]} ELSE {} IN
      /\ ns' = [ns EXCEPT ![n] = Fin(s, c)]
      /\ Hist1(n, c)
-  /\ net' = net \ {m}
+     /\ net' = (net \ {m}) \cup retry
   /\ UNCHANGED budget
 
 \* submitReadOnlyOperation (linearizable): read index, first round that may confirm it, and a
@@ -818,6 +840,13 @@ NoViolation == viol = {}
 \* used when looking for attack schedules: a violation an execution of the code can show
 NoOpViolation == "StateMachineSafetyOp" \notin viol
 NoStaleRead == "StaleRead" \notin viol
+ReadsHeardMajority == "ReadWithoutMajority" \notin viol
+
+\* C05 (mechanism): a round's counter never exceeds the leader itself plus the distinct voters
+\* that answered it - a read is confirmed by a majority of DIFFERENT voters
+RoundQuorumDistinct ==
+  \A n \in Node : \A key \in DOMAIN ns[n].cnt :
+    key[1] = "h" => ns[n].cnt[key] <= 1 + Cardinality(Get(ns[n].rsp, key[2], {}))
 
 \* C09: the configuration a node has in force is a configuration entry of its own log or lies
 \* within its snapshot
